@@ -17,6 +17,10 @@ import (
 func main() {
 	log.SetOutput(io.Discard)
 	log.SetLevel(log.PanicLevel)
+	if len(os.Args) >= 4 && os.Args[1] == "child" {
+		checks.ChildMain(os.Args[2], os.Args[3])
+		return
+	}
 	if len(os.Args) >= 2 && os.Args[1] == "worker" {
 		checks.WorkerMain()
 		return
